@@ -24,7 +24,7 @@ TRUSTED = ['paper lemma: wf + whole-view postconditions of insert/sample imply b
            'jax.random.randint(key, shape, lo, hi) returns integers in [lo, hi) and jax.random.split is a function of the key (assumed contracts, cut)',
            'flatten_util.ravel_pytree / its unflatten are inverse (d=record width; records are flat vectors here)']
 ASSUMPTIONS = ['int32 cursors treated as mathematical integers (capacities far below 2^31)', 'capacity N <= 6 (quick: N <= 4), batch <= N, record width 1-2',
-               'sharded wrappers (PmapWrapper/PjitWrapper) are covered by a bounded check only']
+               'sharded wrappers: relational proof on forced host devices for enumerated/sampled cursor combinations (contents symbolic); PmapWrapper.size (psum) natively only']
 
 
 def _rb():
@@ -383,6 +383,127 @@ def init_ob():
   return Obligation('C17/QueueBase.init/empty', 'brax.training.replay_buffers:QueueBase.init', 'init gives wf state with empty view, size 0', run, backend='eval', budget=60)
 
 
+def sharded(kind, D, N, k, b, cyclic, tiers):
+  """Pjit/PmapWrapper = one verified queue per shard + interleaving: wrapper(state, samples) vs the per-shard insert_internal / sample_internal (relational)"""
+  def run():
+    import itertools
+    from jax.sharding import Mesh
+    rb = _rb()
+    if len(jax.devices()) < D:
+      return Result(UNDECIDED, 'only %d host devices (XLA_FLAGS --xla_force_host_platform_device_count not in effect)' % len(jax.devices()))
+    d = 1
+    inner = rb.Queue(N, jp.zeros((d,)), b, cyclic=cyclic)
+    if kind == 'pjit':
+      mesh = Mesh(np.array(jax.devices()[:D]), ('x',))
+      w = rb.PjitWrapper(inner, mesh, ('x',))
+    else:
+      w = rb.PmapWrapper(inner, local_device_count=D)
+    cur = [(ip, sp) for ip in range(N + 1) for sp in range(ip + 1)]
+    combos = list(itertools.product(cur, repeat=D))
+    rng = np.random.RandomState(seed() + 71)
+    if len(combos) > 40:
+      combos = [combos[i] for i in rng.choice(len(combos), 40, replace=False)]
+    ncase = 0
+    for combo in combos:
+      A = Z3Alg()
+      data = A.arr('data', (D, N, d))
+      upd = A.arr('upd', (k * D, d))
+      ip = np.array([c[0] for c in combo], dtype=np.int32)
+      sp = np.array([c[1] for c in combo], dtype=np.int32)
+      keys = np.tile(KEY, (D, 1))
+      st = rb.ReplayBufferState(data=Sym(data), insert_position=ip, sample_position=sp, key=keys)
+
+      def w_insert(s, x):
+        if kind == 'pjit':
+          with w._mesh:
+            return w._partitioned_insert(s, x)
+        x = jax.tree_util.tree_map(lambda y: jp.reshape(y, (-1, D) + y.shape[1:]), x)
+        x = jax.tree_util.tree_map(lambda y: jp.swapaxes(y, 0, 1), x)
+        return jax.pmap(inner.insert_internal)(s, x)
+      inner._size = 0
+      new = sym_call(Interp(A), lambda s, x: w.insert(s, x), st, Sym(upd))          # the REAL wrapper method (host guard included)
+      for s_ in range(D):
+        one = rb.ReplayBufferState(data=Sym(data[s_]), insert_position=ip[s_], sample_position=sp[s_], key=KEY)
+        ref = sym_call(Interp(A), inner.insert_internal, one, Sym(upd[s_::D]))          # shard s receives rows s, s+D, ...
+        ok = _same(new.data[s_], ref.data) and int(new.insert_position[s_]) == int(ref.insert_position) and int(new.sample_position[s_]) == int(ref.sample_position)
+        if not ok:
+          return Result(REFUTED, '%s insert: shard %d differs from the wrapped queue fed rows %d, %d+D, ... (cursors %s)' % (kind, s_, s_, s_, combo), witness={'cursors': [list(c) for c in combo]},
+                        replay=_native_sharded(kind, D))
+      # sample (only where every shard may sample)
+      can = all((c[0] >= 1) if cyclic else (c[0] - c[1] >= b) for c in combo)
+      if can:
+        inner._size = N          # host counter: enough records for the guard (the device-side precondition is `can`)
+        new2, batch = sym_call(Interp(A), lambda s: w.sample(s), st)
+        for s_ in range(D):
+          one = rb.ReplayBufferState(data=Sym(data[s_]), insert_position=ip[s_], sample_position=sp[s_], key=KEY)
+          ref_s, ref_b = sym_call(Interp(A), inner.sample_internal, one)
+          rows = [batch[i * D + s_] for i in range(b)]                                       # interleaved in shard order
+          if not (_same(rows, ref_b) and int(new2.sample_position[s_]) == int(ref_s.sample_position) and _same(new2.data[s_], data[s_])):
+            return Result(REFUTED, '%s sample: batch is not the per-shard batches interleaved in shard order (cursors %s)' % (kind, combo), witness={'cursors': [list(c) for c in combo]},
+                          replay=_native_sharded(kind, D))
+      if kind == 'pjit':
+        with w._mesh:
+          tot = int(w._partitioned_size(rb.ReplayBufferState(data=jp.zeros((D, N, d)), insert_position=jp.asarray(ip), sample_position=jp.asarray(sp), key=jp.asarray(keys))))
+        want = sum((c[0] if cyclic else c[0] - c[1]) for c in combo)
+        if tot != want:
+          return Result(REFUTED, 'pjit size %d != sum of shard sizes %d' % (tot, want), replay={'reproduced': True})
+      ncase += 1
+    return Result(PROVED, '%d cursor combinations (contents and inserted rows symbolic): each shard behaves as the wrapped queue on rows s, s+D, ...; sampled batch interleaved in shard order%s'
+                  % (ncase, '; size = sum' if kind == 'pjit' else ''), stats={'cases': ncase})
+  return Obligation('C17/%sWrapper/interleave[D=%d,N=%d,k=%d,b=%d,%s]' % ('Pjit' if kind == 'pjit' else 'Pmap', D, N, k, b, 'cyclic' if cyclic else 'fifo'),
+                    'brax.training.replay_buffers:%sWrapper' % ('Pjit' if kind == 'pjit' else 'Pmap'),
+                    'relational, forced host devices: wrapper.insert = per-shard insert_internal on rows s, s+D, ...; wrapper.sample = per-shard batches interleaved in shard order, per-shard '
+                    'cursors advanced; size = sum of shard sizes (pjit); contents symbolic, cursor combinations enumerated/sampled', run, backend='case-split+normal-form', tiers=tiers, budget=900)
+
+
+def _pmap_insert(w):
+  def f(s, x):
+    x = jax.tree_util.tree_map(lambda y: jp.reshape(y, (-1, w._num_devices) + y.shape[1:]), x)
+    x = jax.tree_util.tree_map(lambda y: jp.swapaxes(y, 0, 1), x)
+    return jax.pmap(w._buffer.insert_internal)(s, x)
+  return f
+
+
+def _w_sample(w, kind):
+  if kind == 'pjit':
+    def f(s):
+      with w._mesh:
+        return w._partitioned_sample(s)
+    return f
+
+  def g(s):
+    s2, samples = jax.pmap(w._buffer.sample_internal)(s)
+    samples = jax.tree_util.tree_map(lambda x: jp.swapaxes(x, 0, 1), samples)
+    samples = jax.tree_util.tree_map(lambda x: jp.reshape(x, (-1,) + x.shape[2:]), samples)
+    return s2, samples
+  return g
+
+
+def _native_sharded(kind, D):
+  import collections
+  from jax.sharding import Mesh
+  rb = _rb()
+  N, b = 3, 1
+  inner = rb.Queue(N, jp.zeros((1,)), b)
+  w = rb.PjitWrapper(inner, Mesh(np.array(jax.devices()[:D]), ('x',)), ('x',)) if kind == 'pjit' else rb.PmapWrapper(inner, local_device_count=D)
+  st = w.init(jax.random.PRNGKey(0))
+  models = [collections.deque(maxlen=N) for _ in range(D)]
+  nxt = 1.0
+  for step in range(6):
+    vals = np.arange(2 * D, dtype=float) + nxt
+    nxt += 2 * D
+    st = w.insert(st, jp.asarray(vals)[:, None])
+    for i, v in enumerate(vals):
+      models[i % D].append(v)
+    st, batch = w.sample(st)
+    want = [models[s_][0] for s_ in range(D)]
+    for m in models:
+      m.popleft()
+    if not np.allclose(np.asarray(batch).reshape(-1), want):
+      return {'reproduced': True, 'step': step, 'batch': np.asarray(batch).reshape(-1).tolist(), 'expected': want}
+  return {'reproduced': False}
+
+
 def bounded_sharded(tiers):
   """BOUNDED stand-in (not proof): PjitWrapper on one host device behaves like the wrapped queue; D>1 needs forced host devices"""
   def run():
@@ -445,6 +566,7 @@ def obligations(tier):
   for N, b, t in [(2, 1, Q), (3, 2, Q), (4, 2, Q), (4, 4, Th), (5, 2, Th), (6, 4, Th)]:
     obs.append(uniform_sample(N, b, 1, t))
   obs += [host_guards(False), host_guards(True), counter_lemma(), counter_lemma_cyclic(), init_ob(), bounded_sharded(Q)]
+  obs += [sharded('pjit', 2, 3, 1, 1, False, Q), sharded('pjit', 2, 3, 2, 2, True, Q), sharded('pmap', 2, 3, 2, 1, False, Q), sharded('pjit', 4, 2, 1, 1, False, Th), sharded('pmap', 2, 4, 2, 2, True, Th)]
 
   # canary: view contract with the eviction forgotten in sp' (must be refuted)
   def canary(A):
